@@ -8,7 +8,7 @@
    - higherordercomposites.py: polymorph_response, PolyScaleComposite,
      PolyFixedVariableComposite ; truncatecomposite.py ; tracking.py ; structure.py *)
 From Coq Require Import List ZArith QArith Qcanon Bool Arith.
-From Dimod Require Import Base.Util Model.Poly Model.HPoly Model.Samples Model.Comb.
+From Dimod Require Import Base.Util Model.Poly Model.HPoly Model.Samples Model.Comb Gen.Gen_PolyScale.
 Import ListNotations.
 Open Scope Qc_scope.
 
@@ -194,33 +194,75 @@ Definition hscale (k : Qc) (ign : list (list label)) (p : hpoly) : hpoly :=
 Definition qmax (a b : Qc) : Qc := if Qc_leb a b then b else a.
 Definition qmin (a b : Qc) : Qc := if Qc_leb a b then a else b.
 
-(* BinaryPolynomial.normalize: 1/inv_scalar, or None when inv_scalar = 0 *)
+(* BinaryPolynomial.normalize, as written: one pass over the terms with four running extrema;
+   initial values, length tests, update expressions, the inv_scalar formula and the factor given
+   to scale() are GENERATED from the source (Gen/Gen_PolyScale.v) *)
+Record ext := mkExt { e_lmin : Qc; e_lmax : Qc; e_pmin : Qc; e_pmax : Qc }.
+
+Definition norm_step (ign : list (list label)) (a : ext) (t : mono) : ext :=
+  if ignored ign t then a
+  else if gen_is_linear (length (fst t)) then
+    mkExt (gen_upd_lmin (snd t) (e_lmin a)) (gen_upd_lmax (snd t) (e_lmax a)) (e_pmin a) (e_pmax a)
+  else if gen_is_higher (length (fst t)) then
+    mkExt (e_lmin a) (e_lmax a) (gen_upd_pmin (snd t) (e_pmin a)) (gen_upd_pmax (snd t) (e_pmax a))
+  else a.
+
+Definition norm_loop (ign : list (list label)) (p : hpoly) : ext :=
+  fold_left (norm_step ign) p (mkExt gen_init_linear gen_init_linear gen_init_higher gen_init_higher).
+
+(* the factor handed to scale(), or None when inv_scalar = 0 (nothing is scaled) *)
 Definition normalize_scalar (lr pr : Qc * Qc) (ign : list (list label)) (p : hpoly) : option Qc :=
-  let used := filter (fun t => negb (ignored ign t)) p in
-  let lins := map snd (filter (fun t => (length (fst t) =? 1)%nat) used) in
-  let pols := map snd (filter (fun t => (1 <? length (fst t))%nat) used) in
-  let lmin := fold_right qmin 0 lins in let lmax := fold_right qmax 0 lins in
-  let pmin := fold_right qmin 0 pols in let pmax := fold_right qmax 0 pols in
-  let inv := qmax (qmax (lmin / fst lr) (lmax / snd lr)) (qmax (pmin / fst pr) (pmax / snd pr)) in
-  if Qc_eqb inv 0 then None else Some (/ inv).
+  let a := norm_loop ign p in
+  let inv := gen_inv_scalar (e_lmin a) (e_lmax a) (e_pmin a) (e_pmax a) lr pr in
+  if Qc_eqb inv 0 then None else Some (gen_scale_factor inv).
+
+(* bias_range / poly_range arguments: a number r means (-|r|, |r|); without poly_range the
+   bias_range is used for every term *)
+Inductive prange := RNum (r : Qc) | RPair (lo hi : Qc).
+Definition parse_range (r : prange) : Qc * Qc :=
+  match r with RNum q => gen_parse_range q | RPair lo hi => (lo, hi) end.
+Definition polyscale_ranges (bias_range : prange) (poly_range : option prange) : (Qc * Qc) * (Qc * Qc) :=
+  match poly_range with
+  | None => (parse_range bias_range, parse_range bias_range)
+  | Some pr => (parse_range bias_range, parse_range pr)
+  end.
+
+(* poly[v]: a BinaryPolynomial is a dict keyed by the term as a set *)
+Definition hlookup (p : hpoly) (key : list label) : Qc :=
+  match find (fun t => term_eqb (fst t) key) p with Some t => snd t | None => 0 end.
+
+(* scalar = poly[v] / original[v] on the first term with a non-zero bias that is not ignored *)
+Definition ratio_scalar (ign : list (list label)) (original scaled : hpoly) : Qc :=
+  match find (fun t => negb (Qc_eqb (snd t) 0) && negb (ignored ign t)) original with
+  | Some t => gen_ratio_scalar (hlookup scaled (fst t)) (snd t)
+  | None => gen_no_term_scalar
+  end.
 
 (* the polynomial sent to the child and the scalar used to un-scale *)
 Definition polyscale_problem (scalar : option Qc) (lr pr : Qc * Qc) (ign : list (list label))
            (p : hpoly) : hpoly * Qc :=
   match scalar with
   | Some k => (hscale k ign p, k)
-  | None => match normalize_scalar lr pr ign p with
-            | Some k => (hscale k ign p, k)
-            | None => (p, 1)
-            end
+  | None => let q := match normalize_scalar lr pr ign p with
+                     | Some k => hscale k ign p
+                     | None => p
+                     end in
+            (q, ratio_scalar ign p q)
   end.
 
-(* post-processing: recompute when there are ignored terms, else divide *)
+(* post-processing: recompute when there are ignored terms, else `energy /= scalar` *)
 Definition polyscale_result (orig : hpoly) (k : Qc) (ign : list (list label)) (r : result) : result :=
   match ign with
-  | [] => mkRes (r_labels r) (r_rows r) (map (fun e => e / k) (r_energies r))
+  | [] => mkRes (r_labels r) (r_rows r) (map (fun e => gen_unscale e k) (r_energies r))
   | _ => mkRes (r_labels r) (r_rows r)
            (map (fun row => henergy orig (row_sample (r_labels r) row)) (r_rows r))
+  end.
+
+(* dict keys are distinct *)
+Fixpoint dictlike_b (p : hpoly) : bool :=
+  match p with
+  | [] => true
+  | t :: r => negb (existsb (fun u => term_eqb (fst t) (fst u)) r) && dictlike_b r
   end.
 
 (* PolyFixedVariableComposite: child samples hfix fs poly; the fixed columns are
